@@ -162,7 +162,7 @@ theorem ciMatch_dot {p : Char} (h : ciMatch p '.' = true) : p = '.' := by
 `m` and, in the AMP variant, `amp` — ignoring case -/
 def isIrrelevantLabel (amp : Bool) (l : Str) : Bool :=
   ciEq "www" l ||
-  (match matchLit "www".toList l with | some [d] => isAsciiDigit d | _ => false) ||
+  (match matchLit "www".toList l with | some [d] => isReDigit d | _ => false) ||
   ciEq "mobile" l || (amp && ciEq "amp" l) || ciEq "m" l
 
 theorem afterChar_eq_some {ch : Char} {r e : Str} : afterChar ch r = some e ↔ r = ch :: e := by
@@ -175,12 +175,12 @@ theorem afterChar_eq_some {ch : Char} {r e : Str} : afterChar ch r = some e ↔ 
     · simp [h]
 
 theorem afterDigit_eq_some {r e : Str} (h : afterDigit r = some e) :
-    ∃ d, r = d :: e ∧ isAsciiDigit d = true := by
+    ∃ d, r = d :: e ∧ isReDigit d = true := by
   cases r with
   | nil => simp [afterDigit] at h
   | cons c cs =>
     simp only [afterDigit] at h
-    by_cases hd : isAsciiDigit c = true
+    by_cases hd : isReDigit c = true
     · simp only [hd, if_true, Option.some.injEq] at h; exact ⟨c, by simp [h], hd⟩
     · simp [hd] at h
 
